@@ -100,6 +100,15 @@ def main():
         open(os.path.join(srv, "other", "y"), "wb").write(SECRET)
         os.makedirs(os.path.join(srv, "root-old"))
         open(os.path.join(srv, "root-old", "x"), "wb").write(SECRET)
+        # ... and a sibling that is itself a git collection holding a calendar object with the secret in it
+        from xandikos.store.git import TreeGitStore
+        from xandikos.icalendar import ICalendarFile
+        st = TreeGitStore.create(os.path.join(srv, "other", "repo"))
+        st.load_extra_file_handler(ICalendarFile)
+        st.set_type("calendar")
+        st.import_one("secret.ics", "text/calendar",
+                      [R.real_body("secret.ics", b"xs", "text/calendar").replace(b"X-XV-TOK:", b"X-S:" + SECRET + b"\r\nX-XV-TOK:")],
+                      message="m")
         root = R.setup(srv, {"cal": {"a.ics": "xa"}, "ab": {"c.vcf": "v1"}})
         assert root == os.path.join(srv, "root")
         res = asyncio.run(run(root, top, job["method"], job["targets"]))
